@@ -51,6 +51,9 @@ structure St where
   consumed : Bool
   /-- ghost: `ver` when the last changing transition ended. -/
   tver : Nat
+  /-- the root cannot be opened at the moment (e.g. it has been replaced by a
+  symbolic link): scans fail. -/
+  broken : Bool
   deriving DecidableEq, Repr
 
 def St.ver (s : St) : Nat := s.hist.length
@@ -61,7 +64,7 @@ def St.contentAt (s : St) (v : Nat) : Option Nat := (s.disk :: s.hist).reverse[v
 def init (repaired allowed : Bool) (disk : Nat) : St :=
   { repaired := repaired, allowed := allowed, disk := disk, hist := [], accelerate := false, snapshot := none,
     first := true, previous := 0, trans := none, sinceTrans := false, pending := false,
-    view := none, strobed := false, consumed := false, tver := 0 }
+    view := none, strobed := false, consumed := false, tver := 0, broken := false }
 
 def strobe (s : St) : St := { s with pending := true, strobed := true }
 
@@ -90,6 +93,11 @@ def tick (s : St) : St :=
   let s1 := { s with first := false, snapshot := some ⟨s.disk, s.ver⟩, accelerate := s.allowed, previous := s.disk }
   if s.disk ≠ tickBaseline s ∧ tickIgnore s = false then strobe s1 else s1
 
+/-- An iteration of the polling loop whose scan fails: acceleration stays off,
+the poll signal is strobed ("the controller can then perform a full scan"), and
+the loop goes on polling. -/
+def tickFail (s : St) : St := strobe { s with first := false, accelerate := false }
+
 /-- `Scan(full)`: returns the snapshot handed to the controller. -/
 def scan (s : St) (full : Bool) : St × Snap :=
   let s1 : St :=
@@ -110,15 +118,35 @@ def transApply (s : St) : Option St :=
   | some (target, false) => some { setDisk s target with trans := some (target, true) }
   | _ => none
 
-/-- Second locked half: acceleration is switched off and the poll signal is
-strobed iff the transition changed the disk. -/
-def transEnd (s : St) : Option (St × Bool) :=
+/-- An entry as `Transition` sees it: the kind of its root and everything below
+it. Two entries are *shallowly* equal when their roots have the same kind. -/
+structure Ent where
+  kind : Nat
+  below : List (String × Nat)
+  deriving DecidableEq, Repr
+
+def shallowEq (a b : Option Ent) : Bool := a.map (·.kind) == b.map (·.kind)
+
+/-- The bookkeeping at the end of `Transition`, given whether the transition
+made changes on disk. -/
+def transFinish (s : St) (made : Bool) : St :=
+  let s1 := { s with trans := none }
+  let s2 := if s1.accelerate ∧ made then { s1 with accelerate := false } else s1
+  if made then { strobe s2 with tver := s2.ver } else s2
+
+/-- Second locked half of `Transition`. "The transition made changes" means:
+some result differs from the transition's old entry **at any depth** (a
+partially applied directory removal returns the reduced directory, which has
+the same root kind as the old entry). `core.Transition`'s contract ties this to
+the disk: if it changed the disk, the results differ from the old entries (the
+converse can fail: expected content that another program already removed is
+reported as removed). Acceleration is switched off and the poll signal is
+strobed iff the results differ. -/
+def transEnd (s : St) (olds results : List (Option Ent)) : Option (St × Bool) :=
   match s.trans with
-  | some (_, made) =>
-    let s1 := { s with trans := none }
-    let s2 := if s1.accelerate ∧ made then { s1 with accelerate := false } else s1
-    let s3 := if made then { strobe s2 with tver := s2.ver } else s2
-    some (s3, made)
+  | some (_, applied) =>
+    let made := decide (results ≠ olds)
+    if applied && !made then none else some (transFinish s made, made)
   | none => none
 
 /-- Another program modifies the root. -/
@@ -136,16 +164,19 @@ inductive Label
   | transEnd (made : Bool)
   | edit (c : Nat)
   | poll
+  | setBroken (b : Bool)
   deriving DecidableEq, Repr
 
 /-- The step relation (a `Scan` or a polling scan needs the scan lock, which a
 transition holds only in its two halves, modelled as atomic). -/
 inductive Step : St → Label → St → Prop
-  | tick (s) : Step s .tick (tick s)
-  | scan (s full) : s.trans = none → Step s (.scan full (scan s full).2.content) (scan s full).1
+  | tick (s) : s.broken = false → Step s .tick (tick s)
+  | tickFail (s) : s.broken = true → Step s .tick (tickFail s)
+  | setBroken (s b) : Step s (.setBroken b) { s with broken := b }
+  | scan (s full) : s.trans = none → s.broken = false → Step s (.scan full (scan s full).2.content) (scan s full).1
   | transBegin (s c s') : transBegin s c = some s' → Step s (.transBegin c) s'
   | transApply (s s') : transApply s = some s' → Step s .transApply s'
-  | transEnd (s s' made) : transEnd s = some (s', made) → Step s (.transEnd made) s'
+  | transEnd (s s' made olds results) : transEnd s olds results = some (s', made) → Step s (.transEnd made) s'
   | edit (s c) : Step s (.edit c) (edit s c)
   | poll (s s') : pollReturn s = some s' → Step s .poll s'
 
